@@ -456,6 +456,9 @@ class Tol:
             max_denominator(v) <= 10**9 for v in values
         )
         self.exact = self.rational and not self.curved
+        # the library stores rational coordinates with limit_denominator(10**9): once
+        # denominators come near that limit a stored crossing point may be rounded
+        self.rounding_possible = self.exact and any(max_denominator(v) > 10**7 for v in values)
         if self.exact:
             self.num_rel = 0.0
             self.pts = 0.0
@@ -478,6 +481,17 @@ class Tol:
         rel = self.num_rel if self.num_rel else 1e-9
         s = max(abs(a), abs(b), scale or 0.0)
         return abs(a - b) <= rel * max(s, 1e-300) + 1e-300
+
+
+class _RoundedTol:
+    exact = False
+    curved = False
+
+    def __init__(self, d):
+        self.d = d
+        self.num_rel = 1e-9
+        self.pts = 1e-9 * max(d, 1.0)
+        self.area = 1e-9 * d * d
 
 
 def _cover_metric(X, Y, tol, nsample=8):
@@ -528,10 +542,15 @@ def same_region(X, Y, tol=None):
     if tol is None:
         tol = Tol(X, Y)
     cx, cy = chains_of(X), chains_of(Y)
+    metric = not tol.exact
     if tol.exact:
         if cycle_signature(cx) != cycle_signature(cy):
-            return False, "oriented boundary cycles differ (exact)"
-    else:
+            if not tol.rounding_possible:
+                return False, "oriented boundary cycles differ (exact)"
+            # rounded by limit_denominator(10**9): compare metrically, tightly
+            metric = True
+            tol = _RoundedTol(tol.d)
+    if metric:
         mx, my = moments(X), moments(Y)
         for k in MOMENT_KEYS:
             scale = tol.area * (tol.d ** (k[0] + k[1]))
